@@ -72,6 +72,82 @@ fn extraction_digest(path: &str) -> Result<String, String> {
     }
 }
 
+/// Reader queries (lengths, ranges with starts and ends inside, at and beyond the contig end,
+/// segment tables, group statistics, reference segments, unknown names) on one handle; the
+/// outcomes are folded into one digest that the two builds must agree on. Err(msg) = a query
+/// panicked with an arithmetic-overflow message.
+fn reader_digest(path: &str, set: &gen::SampleSet, rng: &mut Rng) -> Result<String, String> {
+    let mut d = match Decompressor::open(path, DecompressorConfig { verbosity: 0 }) {
+        Ok(d) => d,
+        Err(e) => return Ok(format!("open-error:{}", vcommon::clip(&format!("{:#}", e), 60))),
+    };
+    let mut acc: Vec<u8> = Vec::new();
+    let mut overflow: Option<String> = None;
+    let mut note = |acc: &mut Vec<u8>, overflow: &mut Option<String>, r: std::thread::Result<Result<Vec<u8>, ()>>| match r {
+        Ok(Ok(v)) => {
+            acc.extend_from_slice(b"ok:");
+            acc.extend_from_slice(drive::sha256_hex(&v).as_bytes());
+        }
+        Ok(Err(())) => acc.extend_from_slice(b"err;"),
+        Err(pn) => {
+            let m = drive::panic_message(&pn);
+            if is_overflow(&m) && overflow.is_none() {
+                *overflow = Some(m.clone());
+            }
+            acc.extend_from_slice(b"panic;");
+        }
+    };
+    for s in set.samples.iter().take(6) {
+        for (cname, data) in s.contigs.iter().take(3) {
+            if data.is_empty() {
+                continue;
+            }
+            let l = data.len();
+            let r = catch_unwind(AssertUnwindSafe(|| d.get_contig_length(&s.name, cname).map(|x| x.to_string().into_bytes()).map_err(|_| ())));
+            note(&mut acc, &mut overflow, r);
+            let pairs = [
+                (0usize, l),
+                (l / 2, l + 5),
+                (l + 10, l + 20),
+                (l, l + 1),
+                (l + 1, l),
+                (5, 3),
+                (l.saturating_sub(1), l),
+                (rng.usize(0, l), rng.usize(0, l + 3)),
+                (0, usize::MAX),
+                (l + 1000, usize::MAX),
+            ];
+            for (a, b) in pairs {
+                let r = catch_unwind(AssertUnwindSafe(|| d.get_contig_range(&s.name, cname, a, b).map_err(|_| ())));
+                note(&mut acc, &mut overflow, r);
+            }
+            let r = catch_unwind(AssertUnwindSafe(|| d.get_contig_segments_desc(&s.name, cname).map(|v| format!("{:?}", v).into_bytes()).map_err(|_| ())));
+            note(&mut acc, &mut overflow, r);
+        }
+    }
+    let r = catch_unwind(AssertUnwindSafe(|| d.get_contig_length("no such sample", "x").map(|x| x.to_string().into_bytes()).map_err(|_| ())));
+    note(&mut acc, &mut overflow, r);
+    let r = catch_unwind(AssertUnwindSafe(|| d.get_all_segments().map(|v| format!("{:?}", v).into_bytes()).map_err(|_| ())));
+    note(&mut acc, &mut overflow, r);
+    let r = catch_unwind(AssertUnwindSafe(|| {
+        d.get_group_statistics()
+            .map(|mut v| {
+                v.sort();
+                format!("{:?}", v).into_bytes()
+            })
+            .map_err(|_| ())
+    }));
+    note(&mut acc, &mut overflow, r);
+    for g in [0u32, 15, 16, 17, 40, 1_000_000] {
+        let r = catch_unwind(AssertUnwindSafe(|| d.get_reference_segment(g).map_err(|_| ())));
+        note(&mut acc, &mut overflow, r);
+    }
+    match overflow {
+        Some(m) => Err(m),
+        None => Ok(drive::sha256_hex(&acc)),
+    }
+}
+
 pub fn run(args: &Args, rep: &mut Report) {
     let thorough = args.tier_thorough;
     let scratch = args.get("scratch").unwrap_or("/tmp").to_string();
@@ -83,15 +159,45 @@ pub fn run(args: &Args, rep: &mut Report) {
     mon::install();
     // ---- slice A: library round trips from the C01 space (incl. k = 32, fallback > 0) ----
     let na = args.get_u64("na", if thorough { 500 } else { 48 });
-    for i in 0..na {
+    let nbig = args.get_u64("nbig", if thorough { 3 } else { 1 });
+    for i in 0..na + nbig {
         let id = format!("A{}", i);
         if !args.mine(i) || !want(&id) {
             continue;
         }
-        let (mut p, set, _) = p_roundtrip::case_inputs(args.seed ^ 0x18, i, false);
+        let (mut p, mut set, _) = p_roundtrip::case_inputs(args.seed ^ 0x18, i, false);
         if i % 4 == 1 {
             p.k = 32;
             p.fallback = 0.3;
+        }
+        if i >= na {
+            // sizes the small cases never reach: a reference of more than a megabase and, in a
+            // later sample, a novel contig of more than 1 MiB that ends up in one raw pack
+            let mut rng = Rng::derive(args.seed, 0xC18A, i);
+            p = gen::params(&mut rng, false);
+            p.k = *rng.pick(&[17usize, 21, 31]);
+            p.segment_size = *rng.pick(&[20_000usize, 60_000]);
+            p.fallback = 0.0;
+            p.single_file = false;
+            p.capacity = 2 << 30;
+            p.threads = 4;
+            let l = rng.usize(1_100_000, 1_300_000);
+            let base = gen::random_bases(&mut rng, l);
+            let mut second = base.clone();
+            for _ in 0..l / 400 {
+                let at = rng.usize(0, l - 1);
+                second[at] = rng.below(4) as u8;
+            }
+            let l = rng.usize(1_150_000, 1_400_000);
+            let novel = gen::random_bases(&mut rng, l);
+            set = gen::SampleSet {
+                samples: vec![
+                    gen::Sample { name: "B9#0".into(), contigs: vec![("B9#0#chr1".into(), base)] },
+                    gen::Sample { name: "B10#0".into(), contigs: vec![("B10#0#chr1".into(), second), ("B10#0#novel".into(), novel)] },
+                ],
+                pansn: true,
+            };
+            rep.count(&format!("cases_with_a_raw_pack_of_more_than_1MiB_{}", profile()), 1);
         }
         let path = format!("{}/a{}.agc", dir, i);
         mon::set_case(i, jobj(&[("id", jstr(&id)), ("profile", jstr(profile())), ("params", p.json()), ("input", set.brief())]));
@@ -100,8 +206,18 @@ pub fn run(args: &Args, rep: &mut Report) {
         match r {
             Ok(Ok(())) => {
                 let sha = drive::sha256_file(&path).unwrap_or_default();
+                let mut qrng = Rng::derive(args.seed, 0xC18E, i);
+                let queries = match catch_unwind(AssertUnwindSafe(|| reader_digest(&path, &set, &mut qrng))) {
+                    Ok(Ok(dg)) => dg,
+                    Ok(Err(m)) => {
+                        overflow_violation(rep, args, &id, &m, p.json());
+                        "overflow-panic".to_string()
+                    }
+                    Err(_) => "harness-panic".to_string(),
+                };
+                rep.count(&format!("cases_with_reader_queries_{}", profile()), 1);
                 match extraction_digest(&path) {
-                    Ok(x) => record(rep, &id, "ok", &sha, &x),
+                    Ok(x) => record(rep, &id, "ok", &sha, &format!("{}+{}", x, queries)),
                     Err(e) => {
                         if is_overflow(&e) {
                             overflow_violation(rep, args, &id, &e, p.json());
